@@ -45,7 +45,7 @@ def has_skip(item):
 PROPS = {
     'C01': dict(traits=None, part='header', theorems=['DW.C01_applies_iff', 'DW.C01_unlisted_unconstrained', 'DW.C01_no_leak', 'DW.C01_merge_sound', 'DW.dedupGo_generics'],
                 enums=['bounds'], configs_quick=['default', 'safe', 'zod'], design='7/C01'),
-    'C02': dict(traits=None, part='all', count=True, theorems=['DW.C02_impl_list', 'DW.C02_delegation_same_bounds', 'DW.implPreds_shortcut', 'DW.C18_effect', 'DW.C09_fieldwise', 'DW.C06_skipped_never_mentioned', 'DW.C02_obligations', 'DW.C02_well_typed', 'DW.typeable_of_validated', 'DW.C02_preservation', 'DW.C02_never_stuck', 'DW.eval_progress', 'DW.eval_preserves', 'DW.NonVacuous.cxTotal', 'DW.matchPat_preserves', 'DW.applyFn_preserves', 'DW.NonVacuous.accepted', 'DW.NonVacuous.rawOK', 'DW.NonVacuous.implsOK'],
+    'C02': dict(traits=None, part='all', count=True, theorems=['DW.C02_impl_list', 'DW.C02_delegation_same_bounds', 'DW.implPreds_shortcut', 'DW.C18_effect', 'DW.C09_fieldwise', 'DW.C06_skipped_never_mentioned', 'DW.C02_obligations', 'DW.C02_well_typed', 'DW.typeable_of_validated', 'DW.C02_type_checks', 'DW.C02_obligations_sub', 'DW.C02_preservation', 'DW.C02_never_stuck', 'DW.eval_progress', 'DW.eval_preserves', 'DW.NonVacuous.cxTotal', 'DW.matchPat_preserves', 'DW.applyFn_preserves', 'DW.NonVacuous.accepted', 'DW.NonVacuous.rawOK', 'DW.NonVacuous.implsOK'],
                 enums=None, configs_quick=['default', 'safe', 'zod', 'nightly'], diagnostics=True, design='7/C02'),
     'C03': dict(traits=['PartialEq'], theorems=['DW.C03_eq'], enums=['incomparable', 'skip', 'fieldopts'], configs_quick=['default', 'safe', 'zod', 'nightly'], design='7/C03'),
     'C04': dict(tables=True, traits=['PartialOrd', 'Ord'], theorems=['DW.buildDiscriminants_spec', 'DW.C04_ord_refines', 'DW.C04_delegation', 'DW.C04_agree', 'DW.NonVacuous.tiOK', 'DW.NonVacuous.vals'],
